@@ -222,6 +222,14 @@ func cmdCheck(args []string) {
 			todo = append(todo, o)
 		}
 	}
+	{
+		var kf KnownFile
+		loadJSON(filepath.Join(verifDir, "known_findings.json"), &kf)
+		noRetry = map[string]bool{}
+		for _, f := range kf.Findings {
+			noRetry[f.Obligation] = true
+		}
+	}
 	dischargeAll(todo, timeout, *flagWorkers)
 	// thorough: every obligation is re-run under two further solver seeds derived from VERIF_SEED;
 	// an obligation that is not discharged under every seed is reported as unstable and is then
